@@ -1814,6 +1814,10 @@ class NNDescent:
         -------
             None
         """
+        if not hasattr(self, "_neighbor_graph"):
+            raise ValueError(
+                "Cannot update a compressed index: its neighbor graph was discarded."
+            )
         current_random_state = check_random_state(self.random_state)
         rng_state = current_random_state.randint(INT32_MIN, INT32_MAX, 3).astype(
             np.int64
